@@ -1,6 +1,7 @@
 """C07 — the way a resource is supplied does not change what gets stored (three structural clauses)."""
 from __future__ import annotations
 import ast
+from ..pat import Frag
 from ..src import norm, walk_no_nested, AnalysisError
 from ..model import Typer, M, U, L, D, Lit, Prim, ANY, elem, Tup
 from ..pyutil import parents
@@ -333,7 +334,7 @@ def r1_sibling_entry_points(ctx, res):
         res.find(key, a_lmf.module.loc(a_lmf.node), 'the two entry points no longer pre-check the lexicon headers of their resource')
     # add() dispatches on the package type
     key = 'add-dispatch'
-    s = norm(add.node)
+    s = Frag(add.node)
     res.inst(key, add.module.loc(add.node), 'for package in iterpackages(source): wordnet -> _add_lmf, ili -> _add_ili')
     if 'for package in iterpackages(source)' not in s or '_add_lmf(package.resource_file(), progress, progress_handler)' not in s:
         res.find(key, add.module.loc(add.node), 'add() no longer adds every package found by iterpackages(source) through _add_lmf')
@@ -390,7 +391,7 @@ def r4_files(ctx, res):
                     res.find(key, f.module.loc(node), f'{f.qualname} opens a file with mode {mode!r} on the add route: the input may be modified')
     gd = ctx.repo.func('project', '_get_decompressed')
     key = 'decompress-temp-cleanup'
-    s = norm(gd.node)
+    s = Frag(gd.node)
     tries = [t for t in walk_no_nested(gd.node) if isinstance(t, ast.Try)]
     ok = any(any(norm(x) == 'path.unlink()' for x in t.finalbody) for t in tries) and 'path = Path(tmp.name)' in s \
         and 'tempfile.NamedTemporaryFile(' in s
@@ -407,7 +408,7 @@ def r4_files(ctx, res):
             res.find(k2, gd.module.loc(gd.node), f'_get_decompressed no longer opens the compressed source read-only ({mname})')
     ip = ctx.repo.func('project', 'iterpackages')
     key = 'tar-tempdir'
-    s = norm(ip.node)
+    s = Frag(ip.node)
     res.inst(key, ip.module.loc(ip.node), 'tar extracted into a TemporaryDirectory context after _check_tar')
     if 'with tempfile.TemporaryDirectory() as tmpdir' not in s or 'tar.extractall(path=tmpdir)' not in s or '_check_tar(tar)' not in s:
         res.find(key, ip.module.loc(ip.node), 'iterpackages no longer checks the tar members and extracts them into a TemporaryDirectory context')
